@@ -145,7 +145,7 @@ def run(rep, tier):
     vlib.sany("ZebraSchedule")
     zcfg = os.path.join(vlib.BUILD, "cfg", "zebra_%s.cfg" % tier)
     znr, znt = ("{5,6,7,8,9,10,11,12,13,14}", "{4,6,8,10,12,14,16,18,20,24,28,32,36,40}") if thorough else ("{5,6,7,8,9,10,12}", "{4,6,8,10,12,16,20,24}")
-    open(zcfg, "w").write('SPECIFICATION Spec\nCONSTANTS\n  NrSet = %s\n  NtSet = %s\n  Ops = {"residualGive", "smootherTake", "xsmootherTake", "residualTake", "smootherGive", "xsmootherGive"}\n  EmitTables = FALSE\n  FIXED = {"F19", "F21"}\n'
+    open(zcfg, "w").write('SPECIFICATION Spec\nCONSTANTS\n  NrSet = %s\n  NtSet = %s\n  Ops = {"residualGive", "smootherTake", "xsmootherTake", "residualTake", "smootherGive", "xsmootherGive", "directGiveAsm", "smootherGiveAsm", "xsmootherGiveAsm"}\n  EmitTables = FALSE\n  FIXED = {"F19", "F21"}\n'
                           'INVARIANTS EpochDisjoint AllRadialOnce AllCirclesOnce GiveSolvesOnce\n' % (znr, znt))
     z = vlib.tlc("ZebraSchedule", zcfg, workers=8, heap="8g", tag="zebra", timeout=3000)
     rep.add_tlc(z, "ZebraSchedule.tla: EpochDisjoint, AllRadialOnce, AllCirclesOnce for every shape nr in %s, ntheta in %s, 2..9 circles, both boundary modes" % (znr, znt))
@@ -196,9 +196,9 @@ def run(rep, tier):
         if sh in contain_shapes and tabs:
             obs, err = oc.observe_ops(nr, nt, nc, d, 0, rec=rec)
             for op in oc.ZEBRA_OPS:
-                if op in ("xsmootherTake", "xsmootherGive") and not (nr % 2 == 1 and nt % 4 == 0 and nc >= 3):
+                if op in ("xsmootherTake", "xsmootherGive", "xsmootherGiveAsm") and not (nr % 2 == 1 and nt % 4 == 0 and nc >= 3):
                     continue
-                if op in ("smootherTake", "smootherGive") and nc < 2:
+                if op in ("smootherTake", "smootherGive", "smootherGiveAsm") and nc < 2:
                     continue      # the extrapolated smoother exists only on grids that have a coarse grid
                 why = oc.contained(obs.get(op, []), tabs[(op, nr, nt, nc, bool(d))])
                 nops += 1
